@@ -472,6 +472,22 @@ def hierarchy(ctx, rr):
         u = P.unit(qual)
         W = u.call_params[0]
         inner = [f for f in ast.walk(u.node) if isinstance(f, ast.For) and isinstance(f.iter, ast.Call) and any(t.name == walk for t in P.targets(f.iter))]
+        if len(inner) != 1 and walk == 'node_parents_iter':
+            # an in-place climb: each step must move to the parent before looking at the node
+            wl = [w for w in ast.walk(u.node) if isinstance(w, ast.While) and 'has_parent' in ast.unparse(w.test)]
+            if len(wl) == 1:
+                rows = tables(ctx, u, stmts=wl[0].body, iters=1, keep=lambda n, c: n in ('read_parent', 'webentity', 'add'))
+                badc = []
+                for r in rows:
+                    i_mv = first_idx(r, lambda e: e.kind == 'call' and e.name == 'read_parent')
+                    i_we = first_idx(r, lambda e: e.kind == 'call' and e.name == 'webentity')
+                    if i_we is not None and (i_mv is None or i_mv > i_we):
+                        badc.append(r)
+                rr.ob(ctx.where(u, wl[0]), '%s climbs in place: every step moves to the parent before inspecting it' % qual, ok=not badc)
+                for r in badc[:1]:
+                    rr.fail(ctx.finding('R-HIERARCHY', u, wl[0], '%s inspects the node before moving to its parent: the starting prefix itself is inspected and the topmost ancestor '
+                                        'never is' % qual, detail={'row': r.show()[:300]}))
+                continue
         if len(inner) != 1:
             raise AnalysisError('R-HIERARCHY: walk of %s not found' % qual)
         rows = tables(ctx, u, stmts=inner[0].body, iters=1, keep=lambda n, c: n in ('add', 'webentity'))
